@@ -23,6 +23,15 @@ def spline_harnesses(props, tier, wrappers=True, directions=(False, True)):
                 if name == "quadratic" and K == 1 and False:
                     continue
                 hs.append(spline_harness(fam, K, inv, props))
+    # non-default, unequal floors (the defaults make min_bin_width == min_bin_height, which hides a confusion of the two)
+    for inv in directions:
+        for name, kw in (("quadratic", dict(min_bin_width=0.02, min_bin_height=0.05)), ("cubic", dict(min_bin_width=0.02, min_bin_height=0.05)),
+                         ("rq", dict(min_bin_width=0.02, min_bin_height=0.05, min_derivative=0.01))):
+            if name == "cubic" and inv:
+                continue
+            hs.append(spline_harness(FAMILIES[name], 2, inv, props, tag=",floors", **kw))
+            if tier != "quick":
+                hs.append(spline_harness(FAMILIES[name], 3, inv, props, tag=",floors", **kw))
     for inv in directions:
         hs.append(spline_harness(FAMILIES["rq"], 2, inv, props, tag=",ident", enable_identity_init=True))
         for K in (1, 2, 3):
